@@ -87,7 +87,9 @@ def judge(sim, ev, rec):
         judge_answer(sim, ev, rec)
     elif k == "aq_answer":
         if rec.get("error") and not ev.get("tf"):
-            if rec.get("benign_ok"):
+            if rec.get("refusal_expected"):
+                sim.count("probe.refused-required-attribute-missing")
+            elif rec.get("benign_ok"):
                 sim.count("oracle.C08.content-made-provider-fail")
                 add(sim, rec, "C08", "content-made-provider-fail", "%s: %s (the same call succeeds with bland content)" % (
                     rec.get("error"), rec.get("error_msg")))
@@ -244,6 +246,21 @@ def judge_resp(sim, ev, rec):
     for a in eff:
         if a["signed"]:
             sig_elems.append(("assertion", ASSERT_NODE, a["id"], a["issuer"] or m["issuer"], a["enc"]))
+    # assertions carried in the Advice of an effective assertion (plain, or encrypted for this SP): what they
+    # say enters the identity the application reads, so a signature on one is a present signature too
+    try:
+        for adv in ET.fromstring(full).iter(wire.q(wire.SAML, "Advice")):
+            for sub in adv.iter(wire.q(wire.SAML, "Assertion")):
+                d_ = wire.read_assertion(sub)
+                # (only when the application actually reads something of it: an advice assertion that the SP
+                # could not open or ignored is not part of the identity)
+                read_vals = set(v for vals in (out.get("ava") or {}).values() for v in vals if isinstance(v, str))
+                used = any((v or "").strip() in read_vals for x in d_["attrs"] for v in x["values"] if v and len(v) >= 8)
+                if d_["signed"] and d_["id"] and used:
+                    sig_elems.append(("advice-assertion", ASSERT_NODE, d_["id"], d_["issuer"] or m["issuer"], True))
+                    sim.count("probe.signed-advice-assertion")
+    except ET.ParseError:
+        pass
     F["sigs"] = []
     all_sigs_fine = True
     for (what, node, ident, issuer, enc) in sig_elems:
@@ -459,6 +476,20 @@ def check_content(sim, rec, m, eff, out, asked, hits):
             if k in want_nid and (got.get(k) or None) != (want_nid[k] or None):
                 add(sim, rec, "C08", "name-id-not-as-asked", "%s: got=%r asked=%r" % (k, got.get(k), want_nid[k]))
     ident = asked.get("identity")
+    if ident is not None and asked.get("sp_view"):
+        # the SP's metadata asks for particular attributes: only those are released to it
+        ident, asked_for, refuse = fed.expected_release(ident, asked["sp_view"])
+        if refuse:
+            # a required attribute is missing: the documented answer is an error response; this code base
+            # answers "best effort" instead (Server.create_authn_response hard-codes it) and what is
+            # released then is the business of the release policy (C07), not of this property
+            sim.count("probe.required-attribute-missing.best-effort-answer")
+            ident, asked_for = None, None
+        if asked_for is not None:
+            sim.count("probe.release-narrowed-to-requested")
+            for k in (out.get("ava") or {}):
+                if k.lower() not in asked_for:
+                    add(sim, rec, "C08", "attribute-never-asked-for-released", "%s (asked for: %s)" % (k, sorted(asked_for)))
     if ident is not None and not asked.get("p", {}).get("pefim") and not asked.get("p", {}).get("advice"):
         # the documented name mapping (the shipped URI map, case-insensitive on the local name): several
         # asserted names may share one wire name and are then read back under one local name, merged
@@ -519,7 +550,9 @@ def judge_answer(sim, ev, rec):
         # the Server call raised: always acceptable for C20.  Without any injected fault, an honest IdP
         # that cannot build a response for a legal identity fails C08 ("for any content")
         if rec.get("error") and not tf and not p.get("handover"):
-            if rec.get("benign_ok"):
+            if rec.get("refusal_expected"):
+                sim.count("probe.refused-required-attribute-missing")
+            elif rec.get("benign_ok"):
                 sim.count("oracle.C08.content-made-provider-fail")
                 add(sim, rec, "C08", "content-made-provider-fail", "%s: %s (the same call succeeds with bland content)" % (
                     rec.get("error"), rec.get("error_msg")))
@@ -567,7 +600,7 @@ def judge_answer(sim, ev, rec):
     if asked_protect["encrypt"] and can_encrypt and not p.get("advice") and not p.get("pefim"):
         wrapped_plain = sum(1 for e in m["encrypted"] if any(t.endswith("}Assertion") for t in e["plain_children"]))
         if m["assertions"] or wrapped_plain:
-            for cp in (["C20"] if enc_faulted else ["C17"]):
+            for cp in conf_props:
                 add(sim, rec, cp, "plain-assertion-returned-as-encrypted",
                     "n_plain=%d inside-EncryptedAssertion-wrapper=%d tool=%s" % (len(m["assertions"]), wrapped_plain, rec.get("tool")))
     # ---- C17: confidentiality of what was encrypted
